@@ -13,7 +13,7 @@ VARIABLE want                      \* number of steps this plan will have
 ASSUME TLCSet(2, 0)
 
 gvars == <<allvars, want>>
-Blank == MkCfg(0, <<>>, TRUE, TRUE, TRUE, -1)
+Blank == MkCfg(0, <<>>, TRUE, TRUE, TRUE, -1, "ok")
 
 GenInit ==
   /\ want \in 0..MaxSteps
@@ -29,9 +29,10 @@ AddStep ==
 
 Seal ==
   /\ pc = "plan" /\ Len(cfg.steps) = want
-  /\ \E n \in 0..MaxArgs, b, c, r \in BOOLEAN, k \in CancelPts(want) :
+  /\ \E n \in 0..MaxArgs, b, c, r \in BOOLEAN, k \in CancelPts(want), d \in DbStates :
        /\ n = 0 => want = 0
-       /\ cfg' = MkCfg(n, cfg.steps, b, c, r, k)
+       /\ d # "ok" => want <= 1 /\ b /\ c /\ k = -1     \* keep these rare among the plans
+       /\ cfg' = MkCfg(n, cfg.steps, b, c, r, k, d)
   /\ pc' = "start" /\ last' = [ev |-> "init", cfg |-> cfg']
   /\ UNCHANGED <<cur, nex, fail, begun, ran, execs, fin, ret, want>>
 
